@@ -27,10 +27,12 @@ HasTwin ==
                          /\ Cardinality({i \in 1..Len(pr[2]) : q[2][i] # pr[2][i]}) \in (IF Len(pr[2]) = 3 THEN {1, 2} ELSE {1})
 
 \* renaming Model <-> World consistently does not change the verdict
-Swap(x) == IF x = "Model" THEN "World" ELSE IF x = "World" THEN "Model" ELSE x
+\* (the named maps have no renamed counterpart: a program that mentions one is outside the claim)
+Swap(x) == IF x = "Model" THEN "World" ELSE IF x = "World" THEN "Model" ELSE IF x \in Aliases THEN "~" \o x ELSE x
 SwapT(t) == [i \in 1..Len(t) |-> Swap(t[i])]
 SwapP(q) == <<q[1], [i \in 1..Len(q[2]) |-> SwapT(q[2][i])]>>
-RenamingInvariant == ph = 1 => (SwapP(pr) \in Programs => WellTyped(SwapP(pr)) = WellTyped(pr))
+\* (a camera's view transform is pinned to World -> View: no renaming there)
+RenamingInvariant == (ph = 1 /\ pr[1] # "CamMode") => (SwapP(pr) \in Programs => WellTyped(SwapP(pr)) = WellTyped(pr))
 
 ExportInv == (Export /\ ph = 1) =>
   PrintT(<<"REPLAY", ToJson([op |-> pr[1], args |-> pr[2], verdict |-> IF WellTyped(pr) THEN "accept" ELSE "reject", class |-> Class(pr)])>>)
